@@ -7,10 +7,13 @@ mod adoc;
 mod build;
 mod engine;
 mod gen;
+mod driver;
 mod json;
+mod model;
 mod monitors;
 mod rng;
 mod snap;
+mod walker;
 mod xmlread;
 
 use engine::{Config, Tier};
